@@ -63,6 +63,7 @@ type Explorer struct {
 	nextID    int
 	Steps     int
 	NPaths    int
+	W2        *World // optional second application instance (another "process"): C07 compares its results too
 	Pairs     map[string]struct{} // distinct (pre-state line, action) pairs are trivially all; kept for distinct (act kind, ok) classes
 }
 
@@ -132,6 +133,15 @@ func (e *Explorer) apply(pre *Snapshot, parent int, a Action) (*Snapshot, int, e
 		if i == 0 {
 			first, firstCtx, firstRes = post, b, res
 		}
+	}
+	if e.W2 != nil {
+		// the same transaction on the same state in an application instance with a different execution history
+		b := e.W2.Ctx(pre)
+		res, err := e.W2.RunTx(b, a)
+		if err != nil {
+			return pre, 0, err
+		}
+		digests = append(digests, e.W2.Dump(b).Digest(res))
 	}
 	id, err := e.emit(parent, a, firstRes, firstCtx, digests, pre, first)
 	return first, id, err
@@ -203,6 +213,7 @@ type Options struct {
 	AllPaths  bool // execute every path completely, not only the ancestors of the expanded nodes
 	PathFile  string
 	NPaths    int
+	SecondApp bool
 }
 
 func Explore(w *World, out *vcommon.Writer, o Options) (*Explorer, error) {
@@ -310,6 +321,13 @@ func Explore(w *World, out *vcommon.Writer, o Options) (*Explorer, error) {
 	}
 	root.needed = true
 	e := &Explorer{NPaths: npaths, W: w, Out: out, Alphabet: o.Alphabet, Reps: o.Reps, RepsAudit: o.RepsAudit, MaxHeight: o.MaxHeight, Pairs: map[string]struct{}{}}
+	if o.SecondApp {
+		w2, err := NewWorld(w.Cfg)
+		if err != nil {
+			return e, err
+		}
+		e.W2 = w2
+	}
 	id, err := e.emit(0, Action{Act: "Init"}, TxResult{OK: true}, w.Root, nil, nil, w.genesis)
 	if err != nil {
 		return e, err
